@@ -655,7 +655,7 @@ class C24(Property):
             yield {'kind': 'planunit', 'items': items, 'rootpath': rng.choice([None, None, '', 'real', 'build']),
                    'outdir': rng.choice(['build', 'build', None]), 'suffix': rng.choice([None, None, '.f90'])}
         # one transformation, both strategies
-        for _ in range(40 if quick else 150):
+        for _ in range(80 if quick else 150):
             proj = gen_project(rng, rng.randint(4, 10))
             config = gen_config(rng, proj, simple=True)
             rs = [n for n in reach(proj, ['driver']) if n != 'driver']
@@ -663,13 +663,15 @@ class C24(Property):
             if u < 0.35:
                 t = {'t': 'dup', 'kernels': rng.sample(rs, min(len(rs), rng.choice([1, 1, 2]))), 'suffix': rng.choice(['_dup', '_d1']),
                      'msuffix': rng.choice([None, '_dm']), 'subgraph': rng.random() < 0.4}
-            elif u < 0.6: t = {'t': 'rem', 'kernels': rng.sample([n for n in rs if n not in intf_called(proj)] or rs, 1)}
+            elif u < 0.6:
+                rc = [n for n in rs if n not in intf_called(proj)]      # class: see F-C24-3
+                t = {'t': 'rem', 'kernels': rng.sample(rc, 1)} if rc else {'t': 'idem'}
             elif u < 0.8: t = {'t': 'dep', 'suffix': '_test', 'msuffix': '_mod'}
             elif u < 0.95: t = {'t': 'wrap', 'msuffix': '_mod'}
             else: t = {'t': 'idem'}
             yield {'kind': 'hyp', 'proj': proj, 'config': config, 'trafo': t}
         # end to end through the CLI
-        for _ in range(60 if quick else 220):
+        for _ in range(120 if quick else 220):
             proj = gen_project(rng, rng.randint(4, 10))
             config = gen_config(rng, proj)
             yield normalise_e2e({'kind': 'e2e', 'proj': proj, 'config': config, 'pipeline': gen_pipeline(rng, proj, config),
